@@ -612,7 +612,7 @@ where
                                 return;
                             }
 
-                            if inner.done {
+                            if inner.done && inner.complete {
                                 break;
                             }
                         }
